@@ -136,3 +136,224 @@ void h_validator_compat(void)
     CANARY_HERE();
 }
 #endif
+
+#ifdef H_LINK
+/* World: component 1 in model 9; its variables 2, 3 (canonical); units objects 4..7, each owned by
+ * model 9, by the foreign model 8, or by no model; OWN / STD / the model's name table are ghosts.
+ * Callees (container getters, owningModel, isStandardUnit) are contract stubs.                */
+static ref OWN[HEAP_N];
+static bool STD[HEAP_N];
+static ref VUNITS[HEAP_N];      /* Variable::units */
+static sid NAME[HEAP_N];
+static size_t in_nvars;
+ref owningModel(ref entity) { return entity ? OWN[entity] : 0; }
+bool isStandardUnit(ref units) { return STD[units]; }
+size_t Component_variableCount(ref self) { return in_nvars; }
+ref Component_variable__sz(ref self, size_t index) { return index < in_nvars ? (ref)(2 + index) : 0; }
+ref Variable_units(ref self) { return VUNITS[self]; }
+void Variable_setUnits__ref(ref self, ref units) { VUNITS[self] = units; }
+sid NamedEntity_name(ref self) { return NAME[self]; }
+/* the model's own units: objects 4..7 owned by model 9 (first of a name wins) */
+ref Model_units__s(ref self, sid name)
+{
+    for (ref u = 4; u <= 7; ++u)
+        if (OWN[u] == self && NAME[u] == name)
+            return u;
+    return 0;
+}
+bool Model_hasUnits__s(ref self, sid name) { return Model_units__s(self, name) != 0; }
+/* string concatenation for the descriptions: some string */
+sid sid_concat(sid a, sid b) { sid r; return r; }
+
+void h_link(void)
+{
+    in_nvars = nondet_size_t();
+    __CPROVER_assume(in_nvars <= 2);
+    for (unsigned k = 0; k < HEAP_N; ++k) {
+        ref o;
+        bool s;
+        sid nm;
+        ref vu;
+        OWN[k] = o;
+        STD[k] = s;
+        NAME[k] = nm;
+        VUNITS[k] = vu;
+    }
+    OWN[1] = 9;
+    OWN[2] = 9;
+    OWN[3] = 9;
+    for (ref u = 4; u <= 7; ++u) {
+        __CPROVER_assume(OWN[u] == 0 || OWN[u] == 8 || OWN[u] == 9);
+        __CPROVER_assume(!(STD[u] && OWN[u] != 0)); /* a standard unit is referenced by name, no model owns it */
+    }
+    for (ref v = 2; v <= 3; ++v)
+        __CPROVER_assume(VUNITS[v] == 0 || (VUNITS[v] >= 4 && VUNITS[v] <= 7));
+    ref before2 = VUNITS[2], before3 = VUNITS[3];
+    vvec_vpair_ref_s list = vvec_vpair_ref_s_new();
+    bool ok = linkComponentVariableUnits(1, &list);
+    bool expect_ok = 1;
+    for (ref v = 2; v <= 3; ++v) {
+        if ((size_t)(v - 2) >= in_nvars)
+            continue;
+        ref was = v == 2 ? before2 : before3, now = VUNITS[v];
+        bool linked_before = was == 0 || STD[was] || OWN[was] == 9;
+        if (linked_before)
+            __CPROVER_assert(now == was, "linkUnits leaves variables whose units are already the model's own (or standard, or absent) untouched");
+        else if (OWN[was] == 0 && Model_units__s(9, NAME[was]) != 0)
+            __CPROVER_assert(now == Model_units__s(9, NAME[was]), "a variable naming units the model has gets the model's own units object of that name");
+        else {
+            __CPROVER_assert(now == was, "a variable whose units cannot be linked keeps them");
+            expect_ok = 0;
+        }
+    }
+    __CPROVER_assert(ok == expect_ok, "linkUnits reports failure exactly when some variable's units are missing from the model or belong to another model");
+    if (ok) {
+        for (ref v = 2; v <= 3; ++v)
+            if ((size_t)(v - 2) < in_nvars) {
+                ref now = VUNITS[v];
+                __CPROVER_assert(now == 0 || STD[now] || (OWN[now] == 9 && now == Model_units__s(9, NAME[now])) || OWN[now] == 9,
+                                 "after a successful linkUnits every variable naming non-standard units holds a units object owned by its own model");
+            }
+        __CPROVER_assert(!areComponentVariableUnitsUnlinked(1), "after a successful linkUnits, hasUnlinkedUnits is false for the component");
+    }
+    CANARY_HERE();
+}
+#endif
+
+#ifdef H_CLEAN
+/* World: model 9 with components [1, 2] (prefix), component 1 with child components [3, 4]
+ * (prefix); units [5, 6] (prefix).  Emptiness of a child after cleaning is the recursive call's
+ * own contract (induction on depth).  Container getters/removers are contract stubs over ghost
+ * lists (their own obligations are C09's).                                                   */
+typedef struct
+{
+    size_t n;
+    ref d[3];
+} rlist;
+static void rlist_erase(rlist *v, size_t i)
+{
+    for (size_t k = i; k + 1 < v->n && k + 1 < 3; ++k)
+        v->d[k] = v->d[k + 1];
+    v->n--;
+}
+static rlist COMPS[HEAP_N];
+static rlist UNITS_;
+static size_t NVARS[HEAP_N], NRESETS[HEAP_N], NUNIT[HEAP_N];
+static sid MATH[HEAP_N], NAME[HEAP_N], ID[HEAP_N];
+static bool IMPORT[HEAP_N];
+static bool EMPTY_AFTER[HEAP_N];   /* what the recursive call returns for a grandchild */
+static bool VISITED[HEAP_N];
+size_t ComponentEntity_componentCount(ref self) { return COMPS[self].n; }
+ref ComponentEntity_component__sz(ref self, size_t i) { return i < COMPS[self].n ? COMPS[self].d[i] : 0; }
+bool ComponentEntity_removeComponent__sz(ref self, size_t i)
+{
+    if (i >= COMPS[self].n)
+        return 0;
+    rlist_erase(&COMPS[self], i);
+    return 1;
+}
+size_t Component_variableCount(ref self) { return NVARS[self]; }
+size_t Component_resetCount(ref self) { return NRESETS[self]; }
+sid Component_math(ref self) { return MATH[self]; }
+sid NamedEntity_name(ref self) { return NAME[self]; }
+sid Entity_id(ref self) { return ID[self]; }
+bool ImportedEntity_isImport(ref self) { return IMPORT[self]; }
+size_t Model_unitsCount(ref self) { return UNITS_.n; }
+ref Model_units__sz(ref self, size_t i) { return i < UNITS_.n ? UNITS_.d[i] : 0; }
+bool Model_removeUnits__sz(ref self, size_t i)
+{
+    if (i >= UNITS_.n)
+        return 0;
+    rlist_erase(&UNITS_, i);
+    return 1;
+}
+size_t Units_unitCount(ref self) { return NUNIT[self]; }
+bool traverseHierarchyAndRemoveIfEmpty__rec(ref component)
+{
+    VISITED[component] = 1; /* every child must be cleaned, whatever its parent looks like */
+    return EMPTY_AFTER[component];
+}
+static void setup(void)
+{
+    for (unsigned k = 0; k < HEAP_N; ++k) {
+        size_t a, b, c;
+        sid m, nm, id;
+        bool im, em;
+        NVARS[k] = a;
+        NRESETS[k] = b;
+        NUNIT[k] = c;
+        MATH[k] = m;
+        NAME[k] = nm;
+        ID[k] = id;
+        IMPORT[k] = im;
+        EMPTY_AFTER[k] = em;
+        VISITED[k] = 0;
+        COMPS[k].n = 0;
+        __CPROVER_assume(a < 1000 && b < 1000);
+    }
+}
+static bool own_empty(ref c) /* the documented definition of an empty component, children aside */
+{
+    return NVARS[c] + NRESETS[c] == 0 && MATH[c] == 0 && !IMPORT[c] && NAME[c] == 0 && ID[c] == 0;
+}
+void h_clean_component(void)
+{
+    setup();
+    size_t in_nc;
+    __CPROVER_assume(in_nc <= 2);
+    COMPS[1].n = in_nc;
+    COMPS[1].d[0] = 3;
+    COMPS[1].d[1] = 4;
+    bool r = traverseHierarchyAndRemoveIfEmpty(1);
+    size_t kept = 0;
+    for (size_t k = 0; k < 2; ++k)
+        if (k < in_nc) {
+            ref ch = (ref)(3 + k);
+            __CPROVER_assert(VISITED[ch], "every child component is cleaned (also below an imported component)");
+            bool listed = (COMPS[1].n > 0 && COMPS[1].d[0] == ch) || (COMPS[1].n > 1 && COMPS[1].d[1] == ch);
+            __CPROVER_assert(listed == !EMPTY_AFTER[ch], "a child component is removed exactly when it is empty after cleaning; the others stay");
+            if (!EMPTY_AFTER[ch])
+                ++kept;
+        }
+    __CPROVER_assert(COMPS[1].n == kept, "nothing else is removed or added");
+    if (kept == 2)
+        __CPROVER_assert(COMPS[1].d[0] == 3 && COMPS[1].d[1] == 4, "the remaining children keep their order");
+    __CPROVER_assert(r == (own_empty(1) && kept == 0), "a component is reported empty exactly by the documented definition");
+    CANARY_HERE();
+}
+bool traverseHierarchyAndRemoveIfEmpty(ref component);
+void h_clean_model(void)
+{
+    setup();
+    size_t in_nc, in_nu;
+    __CPROVER_assume(in_nc <= 2 && in_nu <= 2);
+    COMPS[9].n = in_nc;
+    COMPS[9].d[0] = 1;
+    COMPS[9].d[1] = 2;
+    UNITS_.n = in_nu;
+    UNITS_.d[0] = 5;
+    UNITS_.d[1] = 6;
+    Model_clean(9);
+    size_t keptc = 0, keptu = 0;
+    for (size_t k = 0; k < 2; ++k) {
+        if (k < in_nc) {
+            ref ch = (ref)(1 + k);
+            bool listed = (COMPS[9].n > 0 && COMPS[9].d[0] == ch) || (COMPS[9].n > 1 && COMPS[9].d[1] == ch);
+            /* the top-level components have no children here: empty = the documented definition */
+            __CPROVER_assert(listed == !own_empty(ch), "Model::clean removes exactly the components that are empty by the documented definition");
+            if (!own_empty(ch))
+                ++keptc;
+        }
+        if (k < in_nu) {
+            ref u = (ref)(5 + k);
+            bool empty_units = !IMPORT[u] && NAME[u] == 0 && ID[u] == 0 && NUNIT[u] == 0;
+            bool listed = (UNITS_.n > 0 && UNITS_.d[0] == u) || (UNITS_.n > 1 && UNITS_.d[1] == u);
+            __CPROVER_assert(listed == !empty_units, "Model::clean removes exactly the units that are empty by the documented definition");
+            if (!empty_units)
+                ++keptu;
+        }
+    }
+    __CPROVER_assert(COMPS[9].n == keptc && UNITS_.n == keptu, "Model::clean leaves everything else untouched");
+    CANARY_HERE();
+}
+#endif
